@@ -587,6 +587,7 @@ func genHealthCheck() (string, error) {
 				"cbChanged":                          "cbChanged",
 			},
 			Calls: map[string]string{},
+			Types: map[string]string{"flag": "Bool", "changed": "Bool", "cbChanged": "Bool"},
 			Ret:   func(rs []string) string { return "ERR-return" },
 			Fall:  "(unHealthCount, healthCount, flag, " + cbFunc + "Changed cbChanged, " + isH + ")",
 		}
